@@ -45,14 +45,14 @@ CHECKS = {
     ),
     "C07": (
         "exploration",
-        "adjacency-history oracle: unordered pairs of facing contig ends (name, coordinate, lo|hi) with the gap rows between them, input vs every output scaffold",
+        "adjacency-history oracle: unordered pairs of facing contig ends (name, coordinate, lo|hi) with the gap rows between them, input vs every output scaffold; CLI leg: every AGP/TPF file written for one- to four-haplotype maps read back block by block under the same oracle, with a monitor on merge_assemblies that attributes a block to known finding D11 only when it is same-named scaffolds from different merged assemblies",
         "Every junction of every output scaffold of the completed runs is classified (gapless / input gap kept / join gap) and checked against the input adjacency map; sentence 1 on all maps incl. hostile, sentence 2 on PretextView-model and designed-tag maps.",
         "Halves of a cut contig meeting again count as input neighbours; with several consecutive input gap rows each output row must be one of them.",
         "3-C07",
     ),
     "C08": (
         "exploration",
-        "null-map workload (whole, uncut, unpainted or all-painted scaffolds at every texel size with Pretext's end rounding, sub-texel scaffolds present/absent, inputs with leading/trailing gaps and haplotype-prefixed names) with identity + zero-statistics oracle",
+        "null-map workload (whole, uncut, unpainted or all-painted scaffolds at every texel size with Pretext's end rounding, sub-texel scaffolds present/absent, inputs with leading/trailing gaps and haplotype-prefixed names) with identity + zero-statistics oracle; every 25th map also through the pretext-to-asm CLI (one assembly file, contents, zero statistics in log and info YAML)",
         "Each generated null map must give exactly one (primary) assembly with the input scaffolds by name and row-for-row, zero cuts/breaks/joins; painted variant: same row lists, names prefix+rank by non-increasing sequence length.",
         "Last-contig precondition applied as > ceil(t)+1 bp; order compared by name; scaffold-terminal input gaps are not expected in the output (C07).",
         "3-C08",
@@ -108,7 +108,7 @@ CHECKS = {
     ),
     "C15": (
         "fault_enumeration",
-        "process-level controlled scheduler + crash injector over real forked auto_load processes (yield points: sys.monitoring LINE events of the cache functions, raw FileIO write/read/close = flush boundaries, os.stat/replace/unlink); history driver on a logical mtime clock; oracle = reference index of the FASTA's current bytes or a loud failure",
+        "process-level controlled scheduler + crash injector over real forked auto_load processes (yield points: sys.monitoring LINE events of the cache functions, raw FileIO write/read/close = flush boundaries, os.stat/replace/unlink); history driver on three mtime clocks (logical 10 s steps, sub-second steps, FASTA mtimes ahead of the wall clock) incl. objects kept alive across edits and loaded a second time; crash scenario on a FASTA just written by pretext-to-asm with its side files; oracle = reference index of the FASTA's current bytes or a loud failure",
         "Crash points: the indexing process is killed at EVERY yield point of each scenario (cold, stale, equal mtime, .fai or .agp deleted, fresh; 2-record and 800-record files with interior flush boundaries) and a fresh load (and a second one after recovery) is judged per distinct on-disk state. Interleavings: every preemption position for 2 processes/1 preemption, 3 processes/1 preemption, 3 processes/2 preemptions at file operations (quick) plus 2 processes/2 preemptions (thorough) and random-priority schedules. Histories: all sequences up to length 3 (quick) / 4 (thorough) over the property's alphabet plus random ones to length 10, also with the FASTA reached through a symbolic link.",
         "Process crashes (completed writes persist, user-space buffers lost, no torn write); FASTA not edited while being indexed; bounds as stated; scheduling granularity = statements of tola/fasta/index.py cache functions + raw file operations.",
         "3-C15",
